@@ -200,7 +200,10 @@ def _via_formula(c, xs, ys, A, B):
     try:
         with warnings.catch_warnings():
             warnings.simplefilter("ignore")
-            d = design_matrices(f"y ~ 0 + {call}", pd.DataFrame({"y": np.zeros(len(xs)), "x": xs}))
+            # whole-number training data arrive as an INTEGER column (the usual case for counts, ages, years); what
+            # is computed on later, fractional data does not depend on the dtype the training column happened to have
+            xcol = xs.astype("int64") if (np.all(xs == np.round(xs)) and np.abs(xs).max() < 1e9) else xs
+            d = design_matrices(f"y ~ 0 + {call}", pd.DataFrame({"y": np.zeros(len(xs)), "x": xcol}))
             M1 = np.asarray(d.common.design_matrix, dtype=float)
             M2 = np.asarray(d.common.evaluate_new_data(pd.DataFrame({"x": ys})).design_matrix, dtype=float)
     except Exception:  # noqa
